@@ -257,9 +257,17 @@ def _in_child(fn, drop_caps):
             os._exit(code)
     os.close(wfd)
     chunks = []
-    with os.fdopen(r, "rb") as f:
-        chunks.append(f.read())
-    os.waitpid(pid, 0)
+    try:
+        with os.fdopen(r, "rb") as f:
+            chunks.append(f.read())
+        os.waitpid(pid, 0)
+    except BaseException:
+        try:
+            os.kill(pid, 9)
+            os.waitpid(pid, 0)
+        except OSError:
+            pass
+        raise
     return json.loads(b"".join(chunks) or b'{"harness_error": "child produced no output"}')
 
 
